@@ -85,6 +85,18 @@ def build(name, c):
     dt = np.dtype(c["dtype"]).type
     cplx = np.issubdtype(dt, np.complexfloating)
     shape = tuple(c["shape"])
+    if name == "KnownNonlinear":  # witnesses of known_findings.txt (corpus only, never part of the grid)
+        w = c["which"]
+        if w == "pad_constant_values":
+            return linop.Pad(shape, input_dtype=dt, pad_width=1, constant_values=1.0)
+        if w == "pad_linear_ramp":
+            return linop.Pad(shape, input_dtype=dt, pad_width=1, mode="linear_ramp", end_values=2.0)
+        if w == "jacobian_include_eval":
+            from scico.operator import Operator
+
+            F = Operator(shape, output_shape=shape, eval_fn=lambda x: x * x + 1.0, input_dtype=dt, output_dtype=dt)
+            return linop.jacobian(F, jnp.asarray(np.arange(1, shape[0] + 1).astype(dt)), include_eval=True)
+        raise KeyError(w)
     if name == "Derived":
         n = shape[0]
         d1 = jnp.asarray((np.arange(1, n + 1) / 2).astype(dt) * ((1 + 0.5j) if cplx else 1))
